@@ -245,6 +245,8 @@ func (s *Snapshot) VisibleDevices(p *v1.Pod) (devices string, portion string, fo
 type Finding struct {
 	Key string
 	Msg string
+	// Attempt is the index of the attempt that raised it (-1: raised after recovery / not attempt-bound).
+	Attempt int
 }
 
 func podShape(p *v1.Pod) string {
@@ -288,20 +290,20 @@ func CheckReservationInvariant(s *Snapshot) []Finding {
 			}
 		}
 		if len(rs) > 1 {
-			out = append(out, Finding{"multiple-reservation-pods", fmt.Sprintf("group %s has %d reservation pods", g, len(rs))})
+			out = append(out, Finding{Key: "multiple-reservation-pods", Msg: fmt.Sprintf("group %s has %d reservation pods", g, len(rs))})
 		}
 		if len(rs) >= 1 && len(live) == 0 {
 			shape := "none"
 			if len(consumers[g]) > 0 {
 				shape = podShape(consumers[g][0])
 			}
-			out = append(out, Finding{"reservation-leaked last-consumer=" + shape,
-				fmt.Sprintf("group %s keeps reservation pod %s (index %q) but no live pod carries the group", g, rs[0].Name, rs[0].Annotations[IndexAnn])})
+			out = append(out, Finding{Key: "reservation-leaked last-consumer=" + shape,
+				Msg: fmt.Sprintf("group %s keeps reservation pod %s (index %q) but no live pod carries the group", g, rs[0].Name, rs[0].Annotations[IndexAnn])})
 		}
 		if len(rs) == 0 {
 			for _, c := range live {
-				out = append(out, Finding{fmt.Sprintf("consumer-without-reservation phase=%s kind=%s", c.Status.Phase, podShape(c)),
-					fmt.Sprintf("pod %s (%s, node %q) carries group %s but the group has no reservation pod", c.Name, c.Status.Phase, c.Spec.NodeName, g)})
+				out = append(out, Finding{Key: fmt.Sprintf("consumer-without-reservation phase=%s kind=%s", c.Status.Phase, podShape(c)),
+					Msg: fmt.Sprintf("pod %s (%s, node %q) carries group %s but the group has no reservation pod", c.Name, c.Status.Phase, c.Spec.NodeName, g)})
 			}
 		}
 	}
@@ -322,7 +324,7 @@ func CheckReservationInvariant(s *Snapshot) []Finding {
 			}
 			want = append(want, rs[0].Annotations[IndexAnn])
 			if rs[0].Spec.NodeName != p.Spec.NodeName {
-				out = append(out, Finding{"consumer-on-other-node-than-reservation", fmt.Sprintf("pod %s on %q, reservation of %s on %q", p.Name, p.Spec.NodeName, g, rs[0].Spec.NodeName)})
+				out = append(out, Finding{Key: "consumer-on-other-node-than-reservation", Msg: fmt.Sprintf("pod %s on %q, reservation of %s on %q", p.Name, p.Spec.NodeName, g, rs[0].Spec.NodeName)})
 			}
 		}
 		if !complete {
@@ -336,8 +338,8 @@ func CheckReservationInvariant(s *Snapshot) []Finding {
 		sort.Strings(got)
 		sort.Strings(want)
 		if strings.Join(got, ",") != strings.Join(want, ",") {
-			out = append(out, Finding{"device-index-mismatch kind=" + podShape(p),
-				fmt.Sprintf("bound pod %s groups %v: NVIDIA_VISIBLE_DEVICES=%q (found=%v) but reservation pods report %v", p.Name, gs, dev, found, want)})
+			out = append(out, Finding{Key: "device-index-mismatch kind=" + podShape(p),
+				Msg: fmt.Sprintf("bound pod %s groups %v: NVIDIA_VISIBLE_DEVICES=%q (found=%v) but reservation pods report %v", p.Name, gs, dev, found, want)})
 		}
 	}
 	return out
